@@ -1140,3 +1140,8 @@ CHECKS["C24"]["note"] = (
     'assignment is tried); list order, x0/p0/c0/u0 and compute_fg (sympy.solve) are not judged; finite grid, '
     'ill-conditioned or non-real points skipped.'
 )
+
+CHECKS["C15"]["note"] = (
+    'Scalar variables only. An exception raised by generate() (before simplification) is not judged; expand_mx is '
+    'switched on together with eliminable_variable_expression because pymoca refuses that combination by design.'
+)
